@@ -186,6 +186,8 @@ Theorem ants_steps_concurrency_bound :
     (ast_running (ast_run md n (ast_init n progs) sched) <= n)%nat.
 Proof. exact ast_steps_concurrency_bound. Qed.
 Print Assumptions ants_steps_concurrency_bound.
+
+(* ------------------------------------------------------------------------------------------------
    "A pool created with size N", "timeout T and retry count R": which N, T, R a NewPool / Send call
    obtains (models/AntsOptions.v: pool_option.go and task_option.go transcribed as functions of the
    literal option list; several pools in one process).  Proofs in proofs/AntsOptionsProofs.v. *)
